@@ -175,8 +175,8 @@ def r4_r5_r7(idx, rep):
             has_y = any(isinstance(x, ast.Yield) for x in ast.walk(n))
             rep.check(not has_y, "R4", f"{fi.file}::CsvPath.next yield outside try/with", "a yield inside try/finally or with runs cleanup when the generator is abandoned", K.where(fi, n))
     # finalize: freezes and clears caches
-    ff, ps = K.sym_result(idx, "CsvPath", "finalize", domains={"self.matcher": [None]}, store={"self._freeze_path": False})
-    rep.check(len(ps) == 1 and ps[0].final_store.get("self._freeze_path") is True, "R4", f"{ff.file}::CsvPath.finalize freezes the path", "", K.where(ff, ff.node))
+    ff, ps = K.sym_result(idx, "CsvPath", "finalize", domains={"self.matcher": [None]}, store={"self." + K.names(idx)["frozen"]: False})
+    rep.check(len(ps) == 1 and ps[0].final_store.get("self." + K.names(idx)["frozen"]) is True, "R4", f"{ff.file}::CsvPath.finalize freezes the path", "", K.where(ff, ff.node))
 
 
 def r6(idx, rep):
@@ -197,7 +197,7 @@ def r6(idx, rep):
     for proj in ([], [0, 2], [1]):
         it = Interp(idx, types={"self": "CsvPath"}, unknown_calls="residual")
         st = K.instance_store(idx, "CsvPath")
-        st.update({"self.limit_collection_to": list(proj), "self._limit_collection_to": list(proj)})
+        st.update({"self.limit_collection_to": list(proj), "self." + K.names(idx)["limit"]: list(proj)})
         ps = it.run_program(program, st)
         if len(ps) != 1 or ps[0].result[0] != "return":
             bad = bad or f"projection {proj}: {[p.result for p in ps]}"
@@ -214,7 +214,7 @@ def r6(idx, rep):
     rep.check(bad is None, "R6", f"{fi.file}::CsvPath.limit_collection table", bad or "", K.where(fi, fi.node))
     # out-of-range projection raises
     it = Interp(idx, types={"self": "CsvPath"}, unknown_calls="residual")
-    ps = it.run_all(fi, args={"line": ["a"]}, store={"self.limit_collection_to": [3], "self._limit_collection_to": [3]})
+    ps = it.run_all(fi, args={"line": ["a"]}, store={"self.limit_collection_to": [3], "self." + K.names(idx)["limit"]: [3]})
     rep.check(len(ps) == 1 and ps[0].result[0] == "raise", "R6", f"{fi.file}::CsvPath.limit_collection rejects a missing header", f"{ps[0].result}", K.where(fi, fi.node))
     # collect(): what it returns are copies of exactly the lines next() yields — same cells (a None cell stays None), other list objects
     fc = idx.method("CsvPath", "collect")
